@@ -91,6 +91,7 @@ type streamWorld struct {
 	srv      *server
 	res      *vlib.Result
 	pids     map[int]uint64 // spec part id -> real part id
+	pbatch   map[int]map[int]bool // spec part id -> write batches whose rows (and ballast) went into it
 	group    string
 	root     string
 	cfg      config
@@ -136,7 +137,7 @@ func (m *streamWorld) setup(ctx context.Context) error {
 		Metadata: &commonv1.Metadata{Name: m.group},
 		Catalog:  commonv1.Catalog_CATALOG_STREAM,
 		ResourceOpts: &commonv1.ResourceOpts{
-			ShardNum:        1,
+			ShardNum:        uint32(max(1, m.cfg.Shards)),
 			SegmentInterval: &commonv1.IntervalRule{Unit: commonv1.IntervalRule_UNIT_DAY, Num: 1},
 			Ttl:             &commonv1.IntervalRule{Unit: commonv1.IntervalRule_UNIT_DAY, Num: 30},
 		},
@@ -244,8 +245,112 @@ func (m *streamWorld) coverReq() *streamv1.QueryRequest {
 			{Name: streamFamIdx, Tags: []string{"svc", "rid", "a", "b", "arr"}},
 			{Name: streamFamDat, Tags: []string{"ps", "pb", "pa", "pia"}},
 		}},
-		Limit: 10000,
+		Limit: 1000000,
 	}
+}
+
+// ---- ballast (see config.Ballast) ------------------------------------------------------------------------
+
+const ballastBase = 1000000
+
+func ballastID(batch, j int) int { return ballastBase + batch*20000 + j }
+
+func (m *streamWorld) ballastSeries(j int) string {
+	if m.cfg.BallastMode == "wide" {
+		return fmt.Sprintf("bw-%05d", j)
+	}
+	return m.seriesName(1)
+}
+
+func (m *streamWorld) ballastTime(batch, j int) time.Time {
+	if m.cfg.BallastMode == "wide" {
+		return m.ts(2).Add(time.Duration(2+batch) * time.Millisecond)
+	}
+	return m.ts(2).Add(time.Duration(2+j) * time.Millisecond)
+}
+
+func ballastPayload(batch, j int) string {
+	return fmt.Sprintf("ballast-%d-%d-%07d", batch, j, (batch*7919+j*104729)%1000003)
+}
+
+func (m *streamWorld) ballastElement(batch, j int) *streamv1.ElementValue {
+	id := ballastID(batch, j)
+	return &streamv1.ElementValue{
+		ElementId: fmt.Sprint(id),
+		Timestamp: timestamppb.New(m.ballastTime(batch, j)),
+		TagFamilies: []*modelv1.TagFamilyForWrite{
+			{Tags: []*modelv1.TagValue{
+				tagStr(m.ballastSeries(j)), tagInt(int64(id)), tagInt(int64(j % 3)), tagStr(fmt.Sprintf("b%02d", j%3)),
+				{Value: &modelv1.TagValue_IntArray{IntArray: &modelv1.IntArray{Value: []int64{int64(j)}}}},
+			}},
+			{Tags: []*modelv1.TagValue{tagStr(ballastPayload(batch, j)), streamNull, streamNull, streamNull}},
+		},
+	}
+}
+
+// splitBallast separates the ballast elements of an answer from the elements the spec knows.
+func (m *streamWorld) splitBallast(es []*streamv1.Element) (spec, ballast []*streamv1.Element) {
+	if m.cfg.Ballast == 0 {
+		return es, nil
+	}
+	for _, e := range es {
+		if streamFindTag(e, "rid").GetInt().GetValue() >= ballastBase {
+			ballast = append(ballast, e)
+		} else {
+			spec = append(spec, e)
+		}
+	}
+	return
+}
+
+func batchesOf(acked map[int]map[string]any) map[int]bool {
+	out := map[int]bool{}
+	for _, r := range acked {
+		out[vlib.Int(r, "batch")] = true
+	}
+	return out
+}
+
+// checkBallast: every ballast element of every acknowledged batch is returned exactly once, exactly as written.
+func (m *streamWorld) checkBallast(ballast []*streamv1.Element, acked map[int]map[string]any) (string, string) {
+	want := map[int][2]int{}
+	for b := range batchesOf(acked) {
+		for j := 0; j < m.cfg.Ballast; j++ {
+			want[ballastID(b, j)] = [2]int{b, j}
+		}
+	}
+	seen := map[int]bool{}
+	for _, e := range ballast {
+		id := int(streamFindTag(e, "rid").GetInt().GetValue())
+		bj, ok := want[id]
+		if !ok {
+			return "phantom-row", fmt.Sprintf("returned ballast element id %d was never written", id)
+		}
+		if seen[id] {
+			return "duplicate-element", fmt.Sprintf("ballast element id %d returned twice", id)
+		}
+		seen[id] = true
+		if got := streamFindTag(e, "ps").GetStr().GetValue(); got != ballastPayload(bj[0], bj[1]) {
+			return "value-not-as-written:ballast-string-tag", fmt.Sprintf("ballast element id %d (batch %d #%d): ps=%q, written %q", id, bj[0], bj[1], got, ballastPayload(bj[0], bj[1]))
+		}
+		if got := streamFindTag(e, "svc").GetStr().GetValue(); got != m.ballastSeries(bj[1]) {
+			return "value-not-as-written:ballast-entity", fmt.Sprintf("ballast element id %d: svc=%q, written %q", id, got, m.ballastSeries(bj[1]))
+		}
+		if !e.Timestamp.AsTime().Equal(m.ballastTime(bj[0], bj[1])) {
+			return "value-not-as-written:ballast-timestamp", fmt.Sprintf("ballast element id %d: timestamp %s, written %s", id, e.Timestamp.AsTime(), m.ballastTime(bj[0], bj[1]))
+		}
+		if got := streamFindTag(e, "arr").GetIntArray().GetValue(); len(got) != 1 || got[0] != int64(bj[1]) {
+			return "value-not-as-written:ballast-int-array", fmt.Sprintf("ballast element id %d: arr=%v, written [%d]", id, got, bj[1])
+		}
+	}
+	if len(seen) != len(want) {
+		for id, bj := range want {
+			if !seen[id] {
+				return "missing-row", fmt.Sprintf("%d of %d ballast elements are missing, e.g. id %d (batch %d #%d)", len(want)-len(seen), len(want), id, bj[0], bj[1])
+			}
+		}
+	}
+	return "", ""
 }
 
 func (m *streamWorld) rowTags(id int) (a int64, b string, arr []int64) {
@@ -312,6 +417,17 @@ func (m *streamWorld) write(ctx context.Context, rows []map[string]any) error {
 			return err
 		}
 	}
+	sent := len(rows)
+	if m.cfg.Ballast > 0 && len(rows) > 0 {
+		batch := vlib.Int(rows[0], "batch")
+		for j := 0; j < m.cfg.Ballast; j++ {
+			m.msgID++
+			if err = st.Send(&streamv1.WriteRequest{Metadata: md, Element: m.ballastElement(batch, j), MessageId: m.msgID}); err != nil {
+				return err
+			}
+			sent++
+		}
+	}
 	if err = st.CloseSend(); err != nil {
 		return err
 	}
@@ -329,8 +445,8 @@ func (m *streamWorld) write(ctx context.Context, rows []map[string]any) error {
 		}
 		acks++
 	}
-	if acks != len(rows) {
-		return fmt.Errorf("VIOLATION %d acknowledgements for %d elements", acks, len(rows))
+	if acks != sent {
+		return fmt.Errorf("VIOLATION %d acknowledgements for %d elements", acks, sent)
 	}
 	return nil
 }
@@ -373,6 +489,9 @@ func (m *streamWorld) replay(ctx context.Context, b vlib.Behaviour) {
 				}
 				return
 			}
+			if m.cfg.Shards > 1 {
+				break // several tables: the layout is not mapped (see config.Shards)
+			}
 			if m.root == "" {
 				roots := stream.VerifTableRoots("/" + m.group + "/")
 				if len(roots) != 1 {
@@ -392,22 +511,69 @@ func (m *streamWorld) replay(ctx context.Context, b vlib.Behaviour) {
 				return
 			}
 			m.pids[vlib.Int(ev, "part")] = fresh[0]
+			if m.pbatch == nil {
+				m.pbatch = map[int]map[int]bool{}
+			}
+			m.pbatch[vlib.Int(ev, "part")] = map[int]bool{}
+			for _, r := range vlib.List(ev, "rows") {
+				m.pbatch[vlib.Int(ev, "part")][vlib.Int(vlib.Rec(r), "batch")] = true
+			}
 		case "flush":
+			if m.cfg.Shards > 1 {
+				for _, r := range stream.VerifTableRoots("/" + m.group + "/") {
+					if err := stream.VerifFlush(r); err != nil {
+						m.res.Inconclusive = append(m.res.Inconclusive, "flush: "+err.Error())
+						return
+					}
+				}
+				m.res.Inc("multi_shard_flushes")
+				break
+			}
 			if err := stream.VerifFlush(m.root); err != nil {
 				m.res.Inconclusive = append(m.res.Inconclusive, "flush: "+err.Error())
 				return
 			}
 		case "merge":
+			if m.cfg.Shards > 1 {
+				for _, r := range stream.VerifTableRoots("/" + m.group + "/") {
+					_, ps := stream.VerifParts(r)
+					var files []uint64
+					for _, p := range ps {
+						if !p.Mem {
+							files = append(files, p.ID)
+						}
+					}
+					if len(files) < 2 {
+						continue
+					}
+					if _, err := stream.VerifMerge(r, files); err != nil {
+						fail("merge-failed", "merging parts %v of %s: %v", files, r, err)
+						return
+					}
+					m.res.Inc("multi_shard_merges")
+				}
+				break
+			}
 			var ids []uint64
 			for _, p := range vlib.Ints(vlib.List(ev, "inputs")) {
 				ids = append(ids, m.pids[p])
 			}
+			m.res.Inc(fmt.Sprintf("merge_fan_in_%d", len(ids)))
 			out, err := stream.VerifMerge(m.root, ids)
 			if err != nil {
 				fail("merge-failed", "merging parts %v: %v", ids, err)
 				return
 			}
 			m.pids[vlib.Int(ev, "out")] = out
+			if m.pbatch != nil {
+				u := map[int]bool{}
+				for _, p := range vlib.Ints(vlib.List(ev, "inputs")) {
+					for b := range m.pbatch[p] {
+						u[b] = true
+					}
+				}
+				m.pbatch[vlib.Int(ev, "out")] = u
+			}
 		case "query", "queryall":
 			// queries are observations: every query of the step is evaluated and the behaviour goes on whatever they
 			// return; a signature is reported a few times per process only (the result keeps 50 violations)
@@ -428,7 +594,7 @@ func (m *streamWorld) replay(ctx context.Context, b vlib.Behaviour) {
 			}
 			continue
 		}
-		if !m.checkParts(st, op, fail) {
+		if m.cfg.Shards <= 1 && !m.checkParts(st, op, fail) {
 			return
 		}
 		if !m.checkCover(ctx, st, op, fail) {
@@ -474,11 +640,26 @@ func (m *streamWorld) checkParts(st vlib.State, op string, fail func(string, str
 		}
 		// nothing is deduplicated in a stream: a part holds exactly the elements the spec puts into it
 		ids := vlib.Ints(vlib.List(p, "rows"))
-		if int(rp.Count) != len(ids) {
-			fail("part-count-differs-after-"+op, "part %d holds %d elements, spec %d", rp.ID, rp.Count, len(ids))
+		wantCount := len(ids)
+		lo, hi := int64(math.MaxInt64), int64(math.MinInt64)
+		if m.cfg.Ballast > 0 {
+			inPart := m.pbatch[vlib.Int(p, "pid")]
+			wantCount += m.cfg.Ballast * len(inPart)
+			for b := range inPart {
+				for _, j := range []int{0, m.cfg.Ballast - 1} {
+					if t := m.ballastTime(b, j).UnixNano(); t < lo {
+						lo = t
+					}
+					if t := m.ballastTime(b, j).UnixNano(); t > hi {
+						hi = t
+					}
+				}
+			}
+		}
+		if int(rp.Count) != wantCount {
+			fail("part-count-differs-after-"+op, "part %d holds %d elements, spec %d", rp.ID, rp.Count, wantCount)
 			return false
 		}
-		lo, hi := int64(math.MaxInt64), int64(math.MinInt64)
 		for _, id := range ids {
 			t := m.ts(vlib.Int(acked[id], "t")).UnixNano()
 			if t < lo {
@@ -677,10 +858,18 @@ func (m *streamWorld) checkCover(ctx context.Context, st vlib.State, op string, 
 			fmt.Printf("DEBUG    written: ps=%.80q pb=%.80x(nil=%v) pa=%.80q(nil=%v) pia=%v(nil=%v) null=%04b\n", w.ps, w.pb, w.pb == nil, w.pa, w.pa == nil, w.pia, w.pia == nil, w.null)
 		}
 	}
-	m.noteDefaultOrder(resp.Elements)
-	if sig, msg := m.matchGroups(resp.Elements, vlib.List(st, "view"), nil, ackedMap(st)); sig != "" {
+	specEs, ballast := m.splitBallast(resp.Elements)
+	m.noteDefaultOrder(specEs)
+	if sig, msg := m.matchGroups(specEs, vlib.List(st, "view"), nil, ackedMap(st)); sig != "" {
 		fail(sig+"-after-"+op, "%s", msg)
 		return false
+	}
+	if m.cfg.Ballast > 0 {
+		m.res.Stats["ballast_rows_compared"] += len(ballast)
+		if sig, msg := m.checkBallast(ballast, ackedMap(st)); sig != "" {
+			fail(sig+"-after-"+op, "%s", msg)
+			return false
+		}
 	}
 	return true
 }
@@ -839,6 +1028,10 @@ func (m *streamWorld) checkQuery(ctx context.Context, st vlib.State, ev map[stri
 		fail("query-rejected:"+vlib.Str(c1, "op")+":"+vlib.Str(c1, "tag")+":"+m.cfg.Index, "query %s failed: %v", desc, err)
 		return false
 	}
+	if ordered && m.cfg.Ballast > 0 {
+		m.res.Inc("ordered_queries_skipped_in_ballast_family") // windows are defined on the spec's rows only
+		return true
+	}
 	if ordered {
 		want := vlib.Ints(vlib.List(ev, "wkeys"))
 		key := func(e *streamv1.Element) int { return int(e.Timestamp.AsTime().Sub(m.base) / time.Minute) }
@@ -847,10 +1040,11 @@ func (m *streamWorld) checkQuery(ctx context.Context, st vlib.State, ev map[stri
 		}
 		return m.checkIndexOrder(ctx, st, ev, q, desc, fail)
 	}
-	m.noteDefaultOrder(resp.Elements)
-	if sig, msg := m.matchGroups(resp.Elements, vlib.List(ev, "groups"), vlib.List(ev, "ambiguous"), ackedMap(st)); sig != "" {
+	specEs, _ := m.splitBallast(resp.Elements)
+	m.noteDefaultOrder(specEs)
+	if sig, msg := m.matchGroups(specEs, vlib.List(ev, "groups"), vlib.List(ev, "ambiguous"), ackedMap(st)); sig != "" {
 		fail(sig+"-in-query:"+vlib.Str(c1, "op")+":"+vlib.Str(c1, "tag")+":"+m.cfg.Index, "%s; returned ids %v, spec ids %v; layout %s; query %s", msg,
-			m.idsOf(resp.Elements), groupIDs(vlib.List(ev, "groups")), m.layout(st), desc)
+			m.idsOf(specEs), groupIDs(vlib.List(ev, "groups")), m.layout(st), desc)
 		return false
 	}
 	return true
